@@ -6,6 +6,8 @@ def text_edit(old, new):
         return src.replace(old, new, 1) if old in src else None
     return edit
 MUTANTS = [
+    Mutant('insert_pos_before_interleaved', 'src/pharmpy/model/external/nonmem/records/code_record.py', (lambda src: src.replace("            # NOTE: We copy interleaved non-statement nodes\n            new_children.extend(self.root.children[last_node_index:ni])", "            # NOTE: We copy interleaved non-statement nodes\n            insert_pos = len(new_children)\n            new_children.extend(self.root.children[last_node_index:ni])", 1).replace("                # NOTE: We keep the nodes but insert them at an updated position\n                insert_pos = len(new_children)\n", "                # NOTE: We keep the nodes but insert them at an updated position\n", 1) if "                # NOTE: We keep the nodes but insert them at an updated position\n                insert_pos = len(new_children)\n" in src else None), 'S9', 'position taken before the interleaved nodes'),
+    Mutant('create_record_cached', 'src/pharmpy/model/external/nonmem/records/factory.py', text_edit("def create_record(chunk: str):", "from functools import lru_cache\n\n\n@lru_cache(maxsize=1024)\ndef create_record(chunk: str):"), 'S10', 'memoised record factory'),
     Mutant('drop_keep_all_tokens', 'src/pharmpy/internals/parse/generic.py', edit_node('GenericParser', lambda n, seg: isinstance(n, ast.keyword) and n.arg == 'keep_all_tokens', lambda seg: 'keep_all_tokens=False'), 'S1', 'tokens filtered'),
     Mutant('class_overrides_placeholders', R + 'parsers.py', edit_node('OptionRecordParser', lambda n, seg: isinstance(n, ast.keyword) and n.arg == 'propagate_positions', lambda seg: seg + ', maybe_placeholders=True'), 'S1', 'placeholders on'),
     Mutant('no_with_ignored', R + 'parsers.py', edit_node('DataRecordParser', lambda n, seg: isinstance(n, ast.Assign) and seg.startswith('post_process'), lambda seg: 'post_process = ()'), 'S2', 'ignored tokens not re-inserted'),
